@@ -79,7 +79,12 @@ def evaluate(job):
     except SyntaxError:
         return ('skip', f'skip (does not compile): {name}')
     expect, errors = {}, {}
-    for p in ALL:
+    checks = ALL
+    if ONLY and name.startswith('seed-'):
+        # incremental mode: the property of the seed and the checks that reported it in tools/seeds.py
+        meta = json.loads((Path('/verif/seeded') / name[5:] / 'meta.json').read_text())
+        checks = sorted({meta['property']} | set((meta.get('last_run') or {}).get('caught_by', {})))
+    for p in checks:
         v = violations(p, ov) - base[p]
         real = sorted(x for x in v if not x.startswith('ANALYSIS-ERROR'))
         if real:
